@@ -228,7 +228,13 @@ char * epub_package_document(scratch_pad * scratch) {
 		print_const("</meta>\n");
 	} else {
 		time_t t = time(NULL);
+#if defined(__unix__) || defined(__APPLE__)
+		// localtime() returns a pointer to one static object shared by all threads
+		struct tm today_buffer;
+		struct tm * today = localtime_r(&t, &today_buffer);
+#else
 		struct tm * today = localtime(&t);
+#endif
 
 		d_string_append_printf(out, "<meta property=\"dcterms:modified\">%d-%02d-%02d</meta>\n",
 							   today->tm_year + 1900, today->tm_mon + 1, today->tm_mday);
